@@ -23,6 +23,10 @@ def mc_info(prog):
 
 CLIENT_POOL = ['A', 'B', 'C', 'D', 'E', 'a', 'AA', 'A1', 'client2', 'client10', 'client1', 'gui',
                'cli', 'web', 'Z', '0', '_x', 'B.b', 'b-1']
+# identifiers longer than a small-string buffer, a log column, a fixed-size field: two that
+# agree in their first 32 characters, one of 64, one of 200
+LONG_CLIENTS = ['operator-console-of-the-heating-zone-A', 'operator-console-of-the-heating-zone-B',
+                'x' * 33, 'service:' + 'y' * 56, 'remote/' + 'z' * 193]
 
 
 def client_ids(rng, count: int) -> List[str]:
@@ -31,6 +35,11 @@ def client_ids(rng, count: int) -> List[str]:
     input dimensions: near-duplicates, numbered families whose textual order differs from the
     numeric one, registration in ascending, descending and arbitrary order."""
     ids = rng.sample(CLIENT_POOL, count)
+    if rng.random() < 0.34:
+        # one or two of them carry long identifiers
+        for pos, long_id in zip(rng.sample(range(count), min(count, 2)),
+                                rng.sample(LONG_CLIENTS, 2)):
+            ids[pos] = long_id
     shape = rng.randrange(4)
     if shape == 0:
         ids.sort()
